@@ -76,6 +76,9 @@ class FFCXBackendSymbols:
         self.quadrature_weight_tables = {}
         self.element_tables = {}
 
+        # Number domains in order of first use in this kernel
+        self.domain_numbering = {}
+
         # Reusing a single symbol for all quadrature loops, assumed not to be nested.
         self.quadrature_loop_index = L.Symbol("iq", dtype=L.DataType.INT)
 
@@ -138,10 +141,11 @@ class FFCXBackendSymbols:
 
     def J_component(self, mt):
         """Jacobian component."""
-        return L.Symbol(
-            format_mt_name(f"J{ufl.domain.extract_unique_domain(mt.expr).ufl_id()}", mt),
-            dtype=L.DataType.REAL,
-        )
+        # Use a kernel-local domain number: ufl_id() counts all meshes created
+        # in the process, which would make the generated text history dependent
+        domain = ufl.domain.extract_unique_domain(mt.expr)
+        number = self.domain_numbering.setdefault(domain, len(self.domain_numbering))
+        return L.Symbol(format_mt_name(f"J{number}", mt), dtype=L.DataType.REAL)
 
     def domain_dof_access(self, dof, component, gdim, num_scalar_dofs, restriction):
         """Domain DOF access."""
